@@ -707,6 +707,16 @@ def gen_c17(rng, sid0, thorough=False):
             scs.append(scenario(sid, framing, units, steps, seed=rng.randrange(100), holes=holes,
                                 tag=f"c17-{framing}-units{len(units)}"))
             sid += 1
+    # a broadcast write arriving while the application holds one unit's handler (it is working on its data): the write is
+    # applied to EVERY unit all the same -- it waits for the handler, it does not skip it
+    for units in ([1, 2], [3, 17, 200]):
+        for held in units:
+            w = req_wsr(rng.randrange(50), rng.randrange(65536))
+            steps = [{"op": "hold_handler", "unit": held, "ms": 60}, rx(rtu(0, w))]
+            for u in units:
+                steps.append(rx(rtu(u, readback_of(w))))
+            scs.append(scenario(sid, "rtu", units, steps, seed=rng.randrange(100), tag=f"c17-broadcast-while-unit{held}-handler-is-held"))
+            sid += 1
     # sequences mixing broadcast writes with addressed traffic under random chunking
     for k in range(60 if thorough else 12):
         units = rng.choice(maps[1:5])
